@@ -209,7 +209,7 @@ func polJSON(p *seccomp.Policy) interface{} {
 // (diagnostic only). Operand kinds are inferred from the last load in
 // program order.
 func modelDrift(c *polcase.Conc, m *polcase.Model, raw []bpf.RawInstruction, insts []bpf.Instruction) string {
-	if m.Le != c.LE {
+	if m.Le != c.LE || m.Err == "skipped" {
 		return ""
 	}
 	if len(m.Prog) != len(insts) {
